@@ -39,16 +39,7 @@ def r3(cx):
     f = cx.f
     rule_flush_ordering(cx)
     cleanup_bounds(cx)
-    cb = f.body("Compactor::merge_tables")
-    um = sites(cx, cb, "Compactor::update_manifest")
-    cl = sites(cx, cb, "Compactor::cleanup_old_tables")
-    dom(cx, cb, um, cl, "manifest updated before merged inputs are deleted")
-    ok, err = result_edges(cb, um[0]) or (None, None)
-    if ok is None:
-        raise AnchorMissing("merge_tables does not branch on update_manifest's result")
-    r = feasible_reach(cb, err)
-    cx.check(not any(c.bb in r for c in cl), "inputs are not deleted when the manifest update failed", "cleanup-after-failed-manifest", um[0].where(),
-             "merge_tables deletes its input tables although update_manifest failed: the manifest on disk still references them")
+    rule_delete_tables_after_manifest(cx)
     ub = f.body("Compactor::update_manifest")
     wr = sites(cx, ub, "levels::write_manifest_to_disk")
     cm = sites(cx, ub, "HiddenTablesGuard::commit")
@@ -64,8 +55,6 @@ def r3(cx):
         owner = f.fn_of(c.body).id
         n += 1
     cx.note("remove_file call sites in crate: %d" % n)
-    # cleanup_old_tables is only called from merge_tables
-    who_calls(cx, ["Compactor::cleanup_old_tables"], {"Compactor::merge_tables"}, "cleanup_old_tables callers", "who:cleanup_old_tables")
     # deleted set == tables_to_merge: changeset.deleted_tables filled from input.tables_to_merge
     ins = [c for c in ub.calls if c.primary.split("::")[-1] == "insert" and "deleted_tables" in origin_of_operand(ub, c.args[0]).field_names()]
     cx.floor("deleted_tables inserts", len(ins), 1)
